@@ -49,35 +49,41 @@ func symxC17() {
 	bn.feed(symxSubscribeBytes(1, fn, 0))
 	cm.feed(symxSubscribeBytes(1, fm, 0))
 	rt.Quiesce()
-	expect := func(c *symxConn, n int, label string) {
+	// expected number of PUBLISH packets per watcher so far; every delivered topic must be the
+	// name its publisher used
+	expM, expB, expD := 0, 0, 0
+	check := func(c *symxConn, n int, label string) {
 		got := symxPublishes(c.written())
 		rt.Assert(len(got) == n, label)
 		for _, g := range got {
 			rt.Assert(string(g.Topic) == topic, "C17.delivered_topic_is_the_name_the_publisher_used")
 		}
 	}
-	wantM := 0
+	wantM, wantN := 0, 0
 	if symxGenericMatch(fm, topic) {
 		wantM = 1
 	}
-	// 1. a retained publish from tenant m
+	if symxGenericMatch(fn, topic) {
+		wantN = 1
+	}
+	// 1. a retained publish from tenant m (the client may set DUP on anything it sends)
 	symxTick()
 	pb := symxPublishBytes(topic, []byte("v"), 0, 0, true)
 	if rt.Bool("dup_flag") {
-		pb[0] |= 0x08 // a client may set DUP on anything it sends
+		pb[0] |= 0x08
 	}
 	am.feed(pb)
 	rt.Quiesce()
-	expect(cm, wantM, "C17.same_tenant_receives_iff_filter_matches")
-	expect(bn, 0, "C17.other_tenant_never_receives_a_publish")
+	expM += wantM
+	check(cm, expM, "C17.same_tenant_receives_iff_filter_matches")
+	check(bn, expB, "C17.other_tenant_never_receives_a_publish")
 	// 2. a late subscriber in n asks for everything: no retained message of m may be replayed
 	dn := connect("d", "n", nil)
 	dn.feed(symxSubscribeBytes(2, "#", 0))
 	rt.Quiesce()
-	expect(dn, 0, "C17.other_tenant_never_receives_retained_messages")
+	check(dn, expD, "C17.other_tenant_never_receives_retained_messages")
 	// 3. a client of tenant n connects with the client identifier of m's watcher 'c'
 	en := connect("c", "n", nil)
-	_ = en
 	symxTick()
 	before := symxCount(cm.written(), packet.PINGRESP)
 	cm.feed(symxPingReq())
@@ -86,15 +92,37 @@ func symxC17() {
 	served := symxCount(cm.written(), packet.PINGRESP) == before+1 && b.local.Get("cm") != nil
 	rt.Assert(served || kf, "C17.client_id_reuse_in_another_tenant_does_not_disturb_the_session")
 	rt.Report("KF-C17-1", !served)
+	// 3b. the two clients sharing the identifier 'c' run a QoS 2 handshake with the same packet
+	// identifier at the same time, each inside its own tenant
+	if served && rt.Bool("concurrent_qos2_handshakes") {
+		symxTick()
+		cm.feed(symxPublishBytes(topic, []byte("m2"), 2, 9, false))
+		en.feed(symxPublishBytes(topic, []byte("n2"), 2, 9, false))
+		rt.Quiesce()
+		rt.Assert(symxCount(cm.written(), packet.PUBREC) == 1 && symxCount(en.written(), packet.PUBREC) == 1, "C17.handshakes_of_two_tenants_do_not_collide")
+		symxTick()
+		cm.feed(symxFrame(0x62, []byte{0, 9}))
+		en.feed(symxFrame(0x62, []byte{0, 9}))
+		rt.Quiesce()
+		rt.Assert(symxCount(cm.written(), packet.PUBCOMP) == 1 && symxCount(en.written(), packet.PUBCOMP) == 1, "C17.both_handshakes_complete")
+		rt.Assert(b.local.Get("cm") != nil && b.local.Get("en") != nil, "C17.both_sessions_survive_the_handshakes")
+		expM += wantM // tenant m's message stays in m
+		expB += wantN // tenant n's message stays in n
+		expD++        // ... and reaches n's '#' subscriber
+		check(cm, expM, "C17.qos2_message_delivered_inside_its_tenant_only")
+		check(bn, expB, "C17.qos2_message_delivered_inside_its_tenant_only")
+		check(dn, expD, "C17.qos2_message_delivered_inside_its_tenant_only")
+	}
 	// 4. the publisher dies uncleanly: its will stays inside tenant m
 	symxTick()
 	am.feedEOF()
 	rt.Quiesce()
 	if served {
-		expect(cm, 2*wantM, "C17.will_reaches_same_tenant_iff_filter_matches")
+		expM += wantM
+		check(cm, expM, "C17.will_reaches_same_tenant_iff_filter_matches")
 	}
-	expect(bn, 0, "C17.other_tenant_never_receives_a_will")
-	expect(dn, 0, "C17.other_tenant_never_receives_a_will")
+	check(bn, expB, "C17.other_tenant_never_receives_a_will")
+	check(dn, expD, "C17.other_tenant_never_receives_a_will")
 	rt.Cover(wantM == 1 && symxGenericMatch(fn, topic), "C17.both_filters_would_match")
 	b.cancel()
 	rt.Quiesce()
